@@ -32,6 +32,7 @@ type Obligation struct {
 	Secs    float64
 	Model   string
 	SMTFile string
+	relaxed bool   // counterexample search mode: drop quantified assumptions
 	noAxiom string // lemma being proved: exclude itself and later lemmas
 	Support bool // support obligation (requires/inv/frame/cover/safe) as opposed to a tagged clause
 }
@@ -54,6 +55,8 @@ type FnCtx struct {
 	ghostVals map[string]*Val
 	notes     []string
 	inlined   map[string]bool
+	preEnv    *Env // contract environment at function entry (replay)
+	postEnv   *Env // contract environment at the merged exit (replay)
 }
 
 type exitRec struct {
